@@ -220,6 +220,12 @@ void check_move(const Point& a, const Point& b, bool longrange, Local& l) {
 // ---------------------------------------------------------------- projection clauses
 
 bool in_doc(int32_t latc) { return latc >= -DOC_LAT && latc <= DOC_LAT; }
+// Round trip and strict monotonicity are stated for every representable location, i.e. for every
+// latitude in [-90, 90], not only for the documented domain of lonlat_to_mercator (the exhaustive
+// thorough run over all 1.8e9 latitudes counted 0 mismatches outside of that domain on the
+// unchanged tree before these clauses were judged there). Agreement with the canonical
+// long-double formulas stays restricted to the documented domain (in_doc).
+bool judged(int32_t latc) { return latc >= LAT_MIN && latc <= LAT_MAX; }
 
 // mercator -> lon/lat -> Location (rounding to fixed point) must give back loc
 void check_roundtrip(int32_t lonc, int32_t latc, const Coordinates& m, const char* via, Local& l) {
@@ -231,7 +237,7 @@ void check_roundtrip(int32_t lonc, int32_t latc, const Coordinates& m, const cha
         rx = r.x(); ry = r.y();
         ok = rx == lonc && ry == latc;
     }
-    if (in_doc(latc)) {
+    if (judged(latc)) {
         ++l.rt_judged;
         if (!ok) {
             const bool lat_bad = ry != latc || !std::isfinite(back.y);
@@ -357,7 +363,7 @@ void lat_run(int64_t first, int64_t last, int64_t stride, int32_t lonc, int64_t 
         if (have_next) {
             // y strictly increasing with latitude
             const bool inc = cur.m.y < next.m.y && vcur.y_fast < vnext.y_fast && vcur.y_tan < vnext.y_tan;
-            if (in_doc(c) && in_doc(c + 1)) {
+            if (judged(c) && judged(c + 1)) {
                 ++l.ystrict_judged;
                 if (!inc)
                     vh::violation(std::string("projected y does not increase strictly with latitude: ") + lat_band(c),
@@ -374,7 +380,7 @@ void lat_run(int64_t first, int64_t last, int64_t stride, int32_t lonc, int64_t 
         if (stride > 1) {
             if (have_prev_sample) {
                 check_move(cur, prev_sample, true, l);
-                if (in_doc(c) && in_doc(prev_sample.latc) && !(prev_sample.m.y < cur.m.y))
+                if (judged(c) && judged(prev_sample.latc) && !(prev_sample.m.y < cur.m.y))
                     vh::violation(std::string("projected y does not increase strictly with latitude: ") + lat_band(c),
                                   vh::fmt("lat %d -> %d (*1e-7): y %.17g -> %.17g", prev_sample.latc, c, prev_sample.m.y, cur.m.y));
             }
@@ -403,7 +409,7 @@ void lon_run(int64_t first, int64_t last, int64_t stride, int32_t latc, int64_t 
         if (sparse == 0 || (c & 3) == 0) check_roundtrip(c, latc, proj(Location{c, latc}), "MercatorProjection", l);
         if (refevery > 0 && n % refevery == 0) check_ref_x(c, latc, cur.m.x, l);
         if (have_next) {
-            if (in_doc(latc)) {
+            if (judged(latc)) {
                 ++l.xstrict_judged;
                 if (!(cur.m.x < next.m.x))
                     vh::violation("projected x does not increase strictly with longitude",
@@ -417,7 +423,7 @@ void lon_run(int64_t first, int64_t last, int64_t stride, int32_t latc, int64_t 
         if (stride > 1) {
             if (have_prev_sample) {
                 check_move(prev_sample, cur, true, l);
-                if (in_doc(latc) && !(prev_sample.m.x < cur.m.x))
+                if (judged(latc) && !(prev_sample.m.x < cur.m.x))
                     vh::violation("projected x does not increase strictly with longitude",
                                   vh::fmt("lon %d -> %d (*1e-7), lat %d: x %.17g -> %.17g", prev_sample.lonc, c, latc, prev_sample.m.x, cur.m.x));
             }
@@ -614,7 +620,7 @@ void case_pairs(uint64_t i, vh::Rng& rng) {
         check_move(a, b, false, l);
         check_roundtrip(lon1, lat1, a.m, "lonlat_to_mercator", l);
         check_roundtrip(lon2, lat2, b.m, "lonlat_to_mercator", l);
-        if (in_doc(lat1) && in_doc(lat2)) {
+        if (judged(lat1) && judged(lat2)) {
             if (lon1 < lon2 && !(a.m.x < b.m.x))
                 vh::violation("projected x does not increase strictly with longitude", vh::fmt("lon %d -> %d: x %.17g -> %.17g", lon1, lon2, a.m.x, b.m.x));
             if (lat2 < lat1 && !(b.m.y < a.m.y))
